@@ -95,9 +95,9 @@ theorem ok_ssesolve : safeExcept [13, 14, 15] ir_ssesolve = true := by decide
 def ir__BaseResult_init : Stmt := (.seq (.fresh 0) (.seq (.alias 4 2) (.seq (.mutate 0) (.seq (.choice (.fresh 3) .skip) (.seq (.alias 5 3) (.seq (.mutate 0) (.seq (.fresh 6) (.seq (.mutate 0) (.seq (.fresh 7) (.seq (.mutate 0) (.seq (.fresh 8) (.seq (.choice (.mutate 8) .skip) (.seq (.alias 9 8) (.mutate 0))))))))))))))
 theorem ok__BaseResult_init : safeExcept [4, 5, 6, 7, 8, 9] ir__BaseResult_init = true := by decide
 
-/-- `qutip/solver/result.py` Result_init (20 statements, 15 variables) -/
-def ir_Result_init : Stmt := (.seq (.fresh 0) (.seq (.havoc 6) (.seq (.loop (.havoc 7)) (.seq (.fresh 8) (.seq (.mutate 0) (.seq (.fresh 9) (.seq (.mutate 0) (.seq (.loop (.seq (.havoc 7) (.seq (.havoc 10) (.seq (.havoc 11) (.seq (.mutate 9) (.mutate 0)))))) (.seq (.fresh 12) (.seq (.mutate 0) (.seq (.fresh 13) (.seq (.mutate 0) (.seq (.fresh 14) (.mutate 0))))))))))))))
-theorem ok_Result_init : safeExcept [6, 7, 8, 9, 10, 11, 12, 13, 14] ir_Result_init = true := by decide
+/-- `qutip/solver/result.py` Result_init (20 statements, 17 variables) -/
+def ir_Result_init : Stmt := (.seq (.fresh 0) (.seq (.havoc 6) (.seq (.loop (.havoc 7)) (.seq (.fresh 8) (.seq (.mutate 0) (.seq (.fresh 9) (.seq (.mutate 0) (.seq (.loop (.seq (.havoc 7) (.seq (.havoc 10) (.seq (.havoc 11) (.seq (.mutate 9) (.mutate 0)))))) (.seq (.fresh 14) (.seq (.mutate 0) (.seq (.fresh 15) (.seq (.mutate 0) (.seq (.fresh 16) (.mutate 0))))))))))))))
+theorem ok_Result_init : safeExcept [6, 7, 8, 9, 10, 11, 12, 13, 14, 15, 16] ir_Result_init = true := by decide
 
 /-- `qutip/solver/multitrajresult.py` MultiTrajResult_init (34 statements, 22 variables) -/
 def ir_MultiTrajResult_init : Stmt := (.seq (.fresh 0) (.seq (.havoc 6) (.seq (.mutate 0) (.seq (.fresh 7) (.seq (.mutate 0) (.seq (.fresh 8) (.seq (.mutate 0) (.seq (.fresh 9) (.seq (.mutate 0) (.seq (.fresh 10) (.seq (.mutate 0) (.seq (.fresh 11) (.seq (.mutate 0) (.seq (.fresh 12) (.seq (.mutate 0) (.seq (.choice (.seq (.loop (.havoc 14)) (.seq (.fresh 15) (.mutate 0))) (.seq (.fresh 15) (.mutate 0))) (.seq (.fresh 16) (.seq (.mutate 0) (.seq (.fresh 17) (.seq (.mutate 0) (.seq (.fresh 18) (.seq (.mutate 0) (.seq (.fresh 19) (.seq (.mutate 0) (.seq (.fresh 20) (.seq (.mutate 0) (.seq (.fresh 21) (.mutate 0))))))))))))))))))))))))))))
